@@ -141,13 +141,11 @@ static int sort_op(const char *op) { /* returns 1 if handled */
     idx = (REF_INT *)malloc(sizeof(REF_INT) * (size_t)n + (n == 0));
     for (k = 0; k < n; k++) x[k] = h_f(h_w[from + k]);
     if (search) {
-      int sorted = 1;
-      for (k = 0; k < n; k++) {
-        if (x[k] != x[k]) sorted = 0;
-        if (k + 1 < n && !(x[k] <= x[k + 1])) sorted = 0;
-      }
-      if (!sorted) {
-        puts("unsorted"); /* the C loop may not terminate on such input: not exercised */
+      int nanfree = 1;
+      for (k = 0; k < n; k++)
+        if (x[k] != x[k]) nanfree = 0;
+      if (!nanfree) {
+        puts("nan-list"); /* the C loop may not terminate when the list holds a NaN: not exercised */
       } else {
         st = ref_sort_search_dbl(n, x, t, &pos);
         printf("%s %d\n", h_status(st), pos);
